@@ -234,7 +234,10 @@ WIT_F20 = {'F20': wit_f20}
 
 def update_config_object(pid):
     """System._update_config_object: an option string is applied iff it has exactly one '=' and its left-hand side exactly
-    one '.', with the three parts stripped; otherwise ValueError is raised and that item is not applied."""
+    one '.', with the three parts stripped; otherwise ValueError is raised and that item is not applied.  Callee contracts of
+    ConfigParser: add_section raises DuplicateSectionError for an existing section, set raises NoSectionError for a missing one
+    (both stated as call-site obligations: a well-formed option must never run into either)."""
+    SECT = z3.ArraySort(S, z3.BoolSort())
     COUNT = z3.Function('str_count', S, S, I)
     PART = z3.Function('str_split_part', S, S, I, S)
     STRIP = z3.Function('str_strip', S, S)
@@ -259,8 +262,18 @@ def update_config_object(pid):
         ex.oblige(st, 'pre@call:ConfigParser.set:section,key,value-are-the-stripped-parts-of-this-item', z3.And(
             to_z3(args[0]) == STRIP(sec), to_z3(args[1]) == STRIP(key), to_z3(args[2]) == STRIP(value)), {})
         ex.oblige(st, 'pre@call:ConfigParser.set:item-is-wellformed', z3.And(COUNT(item, eq) == 1, COUNT(field, dot) == 1), {})
+        ex.oblige(st, 'pre@call:ConfigParser.set:section-exists(no-NoSectionError)', st.ghost['sections'][to_z3(args[0])], {})
         st.ghost['applied'] = True
         return None
+
+    def add_section_h(ex, st, args, kw, node):
+        sec = to_z3(args[1])
+        ex.oblige(st, 'pre@call:ConfigParser.add_section:section-not-there-yet(no-DuplicateSectionError)', z3.Not(st.ghost['sections'][sec]), {})
+        st.ghost['sections'] = z3.Store(st.ghost['sections'], sec, z3.BoolVal(True))
+        return None
+
+    def has_section_h(ex, st, args, kw, node):
+        return st.ghost['sections'][to_z3(args[1])]
 
     def raises_post(old, new, exc):
         item = new.st.content(new.st.env['config_option']).arr[new.st.env['$i0']]
@@ -275,12 +288,12 @@ def update_config_object(pid):
         return True
     c = Contract(FS, 'System._update_config_object', pid=pid, params={'self': TObj()},
                  schema={'config_option': TOptional(TSeq(elem=S)), 'self._config_object': TOptional(TOpaque('ConfigParser'))},
-                 ghost_init={'applied': False},
+                 ghost_init={'applied': False, 'sections': lambda v: fresh('sections', SECT)},
                  calls={'self.options.get': options_get, 'configparser.ConfigParser': lambda ex, st, a, k, n: Opaque(fresh('cp', z3.DeclareSort('ConfigParser'))),
                         '<value>.count': count_h, '<value>.split': split_h, '<value>.strip': strip_h,
-                        '<value>.set': set_h, '<value>.add_section': lambda ex, st, a, k, n: None},
+                        '<value>.set': set_h, '<value>.add_section': add_section_h, '<value>.has_section': has_section_h},
                  globals_={'configparser': Module('configparser')},
-                 loops={0: Loop(inv=[], frame=['$item', '$field', '$value', '$section', '$key'])},
+                 loops={0: Loop(inv=[], frame=['$item', '$field', '$value', '$section', '$key', 'ghost:sections'])},
                  ensures=[], raises={'ValueError': [('only-for-a-malformed-item-and-that-item-is-not-applied', raises_post)]},
                  modifies=['self._config_object'])
     c.merge = False
